@@ -25,3 +25,32 @@ func TestProbeDecoy(t *testing.T) {
 		}
 	}
 }
+
+// Minimal witness: echoing transport, the tail of the echo of request 2 and the (late) reply to
+// request 1 arrive in one transport read, the reply to request 2 in the next one. read() drops the
+// echo but looks at the remainder only in its next iteration, after the next read was appended:
+// both replies are filed under id 101 and call 2 times out (or, in the other order, call 2 gets
+// its reply glued to the following message).
+func TestProbeEchoTailSharesRead(t *testing.T) {
+	for _, ver := range []string{"1.0", "1.1"} {
+		for _, rel := range []string{"with-next-before", "next-write-2"} {
+			bad := 0
+			var last mon.Result
+			for i := 0; i < 6; i++ {
+				res := RunSession(Session{Profile: "probe", Version: ver, Echo: true, NoEchoMark: true, Seg: devsim.Seg{Mode: "whole"},
+					Calls: []Call{
+						{Kind: "lock", Store: "running", Plan: "late", Release: rel, Nonce: "nx-probe-a", Body: "ok"},
+						{Kind: "get", Arg: "<a/>", Plan: "now", Nonce: "nx-probe-b", Body: "data", Fill: "x"},
+						{Kind: "unlock", Store: "running", Plan: "now", Nonce: "nx-probe-c", Body: "ok", AfterWrites: 3},
+					}})
+				if res.Verdict != mon.Held {
+					bad++
+					last = res
+				}
+			}
+			if bad > 0 {
+				t.Errorf("v=%s release=%s: %d of 6 runs violated; last: %s\n%s", ver, rel, bad, last.Key, last.Detail)
+			}
+		}
+	}
+}
